@@ -19,11 +19,10 @@ from pv.guards import facts_at, place_chain
 from pv.tabulate import tabulate, cond_variants
 from pv.mir import sym_str, sym_walk
 from pv.panic import strip_generics
+from pv import x_promo
 
 SETS = ["cold_peers", "warm_peers", "hot_peers", "banned_peers"]
-LIMIT_FN = {"cold_peers": r"PromotionBehavior::(required_cold_peers|peer_deficit)$",
-            "warm_peers": r"PromotionBehavior::required_warm_peers$",
-            "hot_peers": r"PromotionBehavior::required_hot_peers$"}
+LIMIT_NAME = {"cold_peers": "max_peers - (cold+warm+hot)", "warm_peers": "max_warm_peers - warm", "hot_peers": "max_hot_peers - hot"}
 TAG_SET = {"Warm": "warm_peers", "Hot": "hot_peers", "Banned": "banned_peers"}
 PB = "pallas_network2::behavior::initiator::promotion::PromotionBehavior"
 ENTRY_RX = (r"InitiatorBehavior as pallas_network2::Behavior>::(handle_io|execute)$|"
@@ -47,29 +46,6 @@ def set_ops(f):
 
 def promotion_functions(P):
     return [f for f in P.fns.values() if f.b.get("impl_adt") == PB or (f.kind == "Closure" and PB in (f.b.get("root") or ""))]
-
-
-def _neg_contains(f, bb, setname):
-    for fact in facts_at(f, bb, kill=True):
-        if fact.op == "Eq" and fact.r[0] == "const" and int(fact.r[1]) == 0 and fact.l[0] == "call" \
-                and strip_generics(fact.l[1]).endswith("HashSet::contains"):
-            ch = flow.origin_chain(fact.l[2][0]) if fact.l[2] else None
-            if ch and ch[1] and ch[1][-1] == setname:
-                return True
-    return False
-
-
-def removes_via_helper(P, f, t):
-    """Set names from which a workspace helper called at `t` unconditionally removes/takes an element."""
-    g = P.get(t.get("f") or "")
-    if g is None or g is f:
-        return set()
-    out = set()
-    rets = g.return_blocks()
-    for bi, u, op, s_ in set_ops(g):
-        if op in ("remove", "take") and all(flow.dominates(g, bi, r) for r in rets):
-            out.add(s_)
-    return out
 
 
 def check_setmove(res, P):
@@ -112,39 +88,35 @@ def check_setmove(res, P):
                     res.ok(key, "R-SETMOVE", "move: value taken out of %s (disjointness preserved inductively)" % moved_from)
                 continue
             missing = []
+            how = []
+            keychain = flow.origin_chain(val)
             for b in SETS:
                 if b == a:
                     continue
-                ev = False
-                for bj, u, op2, s2 in ops:
-                    if s2 == b and op2 in ("remove", "take") and bj != bi and flow.dominates(f, bj, bi):
-                        ev = True
-                if not ev:
-                    for bj, u in f.calls():
-                        if bj != bi and flow.dominates(f, bj, bi) and b in removes_via_helper(P, f, u):
-                            ev = True
-                if not ev and _neg_contains(f, bi, b):
-                    ev = True
-                if not ev:
+                # the peer is taken out of b on every path through this insert (before or after it: an insert followed by
+                # the removals is the same move), or a dominating test says it is not in b (directly, through a helper
+                # predicate, or `[..sets..].iter().any(..)`) with nothing in between that could put it there
+                ev = x_promo.removal_evidence(P, f, bi, b) or x_promo.absent_by_guard(P, f, bi, b, keychain)
+                if ev:
+                    how.append("%s: %s" % (b, ev))
+                else:
                     missing.append(b)
             if missing:
                 res.violation(key, "%s inserts a peer into %s without evidence on that path that it is absent from %s "
                               "(no remove/take and no negative contains guard): the sets can overlap" % (f.name, a, ", ".join(missing)),
                               where="%s:%s" % (f.file, t["s"][0]), rule="R-SETMOVE")
             else:
-                res.ok(key, "R-SETMOVE", "absence from the other three sets evidenced by remove/take or negative contains guards")
+                res.ok(key, "R-SETMOVE", "absence from the other three sets evidenced (%s)" % "; ".join(how))
     res.floor("set inserts (R-SETMOVE)", n, 3)   # 5 today; promote_* / ban / demote may share helpers
 
 
-def _limit_guard_at(f, bb, setname):
-    rx = re.compile(LIMIT_FN[setname])
-    for fact in facts_at(f, bb, kill=True):
-        for op, l, r in fact.oriented():
-            if l[0] == "call" and rx.search(strip_generics(l[1])) and r[0] == "const":
-                c = int(r[1])
-                if (op in ("Gt", "Ne") and c == 0) or (op == "Gt" and c >= 0) or (op == "Ge" and c >= 1):
-                    return True
-    return False
+def _limit_guard_at(P, f, bb, setname):
+    """The limit functions are identified by what they compute (`config.max_X - number of peers in the set(s)`), not by name;
+    the guard is `limit() > 0` at the site, or a decision value (bool helper / enum verdict) computed under that test."""
+    fns = x_promo.limit_fns(P, PB).get(setname, set())
+    if not fns:
+        return False
+    return bool(x_promo.limit_guard_at(P, f, bb, fns))
 
 
 def check_limits(res, P, closure):
@@ -159,17 +131,17 @@ def check_limits(res, P, closure):
                 continue
             n += 1
             key = "limit:%s:insert:%s" % (f.name, a)
-            if _limit_guard_at(f, bi, a):
-                res.ok(key, "R-LIMIT", "insert dominated by %s() > 0" % LIMIT_FN[a])
+            if _limit_guard_at(P, f, bi, a):
+                res.ok(key, "R-LIMIT", "insert dominated by %s() > 0" % LIMIT_NAME[a])
                 continue
             # one level up: every call site of f (in the closure) is guarded
             sites = [(g, bj) for g, bj, u in P.callers_of(re.escape(f.path) + "$") if g.path in closure]
-            if sites and all(_limit_guard_at(g, bj, a) for g, bj in sites):
+            if sites and all(_limit_guard_at(P, g, bj, a) for g, bj in sites):
                 res.ok(key, "R-LIMIT", "every call site of %s (%d) is dominated by the %s limit test" % (f.name, len(sites), a))
                 continue
             ok_all = False
             res.violation(key, "%s inserts into %s without a dominating %s > 0 test, here or at its call sites: the set can exceed its configured limit "
-                          "(and the unchecked `max - len` subtraction then underflows)" % (f.name, a, LIMIT_FN[a]),
+                          "(and the unchecked `max - len` subtraction then underflows)" % (f.name, a, LIMIT_NAME[a]),
                           where="%s:%s" % (f.file, t["s"][0]), rule="R-LIMIT")
     res.floor("limit-relevant inserts", n, 2)   # 3 today
     return ok_all
@@ -243,28 +215,54 @@ def check_tag_writes(res, P):
     res.floor("promotion tag writes", n, 4)   # 9 today
 
 
+def _enum_variants(P, adt):
+    a = P.adt(adt)
+    return [(v["idx"], v["name"]) for v in a["variants"]] if a else []
+
+
+def _needs_connection_true(f, g, bb, depth=2):
+    """Block bb of g is control-dependent on needs_connection(..) == true."""
+    for fact in facts_at(g, bb, kill=False):
+        if fact.op == "Eq" and fact.r[0] == "const" and int(fact.r[1]) == 1 and fact.l[0] == "call" and fact.l[1] == f.path:
+            return True
+    return False
+
+
 def check_connect_table(res, P):
     f = P.one(r"initiator::connection::needs_connection$")
-    rows = []
-    for p in tabulate(f, P, 256):
-        if p.end != "return":
-            continue
-        conds = dict(c for c in (cond_variants(P, c) for c in p.conds) if c)
-        val = p.ret[1] if p.ret and p.ret[0] == "const" else None
-        promo = next((v for k, v in conds.items() if k.endswith("promotion")), None)
-        conn = next((v for k, v in conds.items() if k.endswith("connection")), None)
-        rows.append((conn, promo, val))
-        res.sample({"needs_connection": {"connection": sorted(conn) if conn else "*", "promotion": sorted(promo) if promo else "*", "result": val}})
-        if val is None:
-            res.violation("needs_connection:non-constant", "needs_connection returns a non-constant value on some path: %s" % sym_str(p.ret), rule="R-TABLE")
-        elif int(val) == 1:
-            if promo is None or promo & {"Banned", "Cold"}:
-                res.violation("needs_connection:%s" % ("|".join(sorted(promo)) if promo else "any"),
-                              "needs_connection is true for promotion in %s with connection in %s: a banned or cold peer would be connected" % (
-                                  sorted(promo) if promo else "any", sorted(conn) if conn else "any"), where="%s:%s" % (f.file, f.line), rule="R-TABLE")
-            else:
-                res.ok("needs_connection:true:%s" % "|".join(sorted(promo)), "R-TABLE", "true only for %s" % sorted(promo))
-    res.floor("needs_connection rows", len(rows), 4)
+    STATE = "pallas_network2::behavior::initiator::InitiatorState"
+    conns = _enum_variants(P, "pallas_network2::behavior::ConnectionState")
+    promos = _enum_variants(P, "pallas_network2::behavior::initiator::PromotionTag")
+    res.floor("ConnectionState x PromotionTag domain", len(conns) * len(promos), 8)
+    # the predicate is evaluated for every (connection, promotion) pair; helper predicates it is composed of are inlined
+    rows = 0
+    true_for = {}
+    unknown = []
+    for ci, cn in conns:
+        for pi, pn in promos:
+            def lookup(ch, ci=ci, pi=pi):
+                root, chain = ch
+                if root != ("param", 1) or not chain:
+                    return None
+                return ci if chain[-1] == "connection" else pi if chain[-1] == "promotion" else None
+            v = x_promo.eval_pred(P, f, lookup)
+            rows += 1
+            if v is None:
+                unknown.append((cn, pn))
+            elif v:
+                true_for.setdefault(pn, []).append(cn)
+    res.sample({"needs_connection": {"true_for": {k: sorted(v) for k, v in true_for.items()}, "undetermined": len(unknown)}})
+    if unknown:
+        res.violation("needs_connection:non-constant", "needs_connection cannot be evaluated for %d (connection, promotion) pairs, e.g. %s: it is no longer a "
+                      "function of the two tags built from matches/helper predicates" % (len(unknown), unknown[0]), where="%s:%s" % (f.file, f.line), rule="R-TABLE")
+    bad = sorted(set(true_for) & {"Banned", "Cold"})
+    if bad:
+        res.violation("needs_connection:%s" % "|".join(bad),
+                      "needs_connection is true for promotion in %s with connection in %s: a banned or cold peer would be connected" % (
+                          bad, sorted({c for b_ in bad for c in true_for[b_]})), where="%s:%s" % (f.file, f.line), rule="R-TABLE")
+    elif not unknown:
+        res.ok("needs_connection:true:%s" % "|".join(sorted(true_for)), "R-TABLE", "true only for %s" % sorted(true_for))
+    res.floor("needs_connection rows", rows, 4)
     # Connect construction sites
     n = 0
     for g in P.fns.values():
@@ -272,16 +270,17 @@ def check_connect_table(res, P):
             continue
         for bi, si, rv in flow.aggregates(g, r"^pallas_network2::InterfaceCommand$", variant="Connect"):
             n += 1
-            ok = False
-            for fact in facts_at(g, bi, kill=False):
-                if fact.op == "Eq" and fact.r[0] == "const" and int(fact.r[1]) == 1 and fact.l[0] == "call" and fact.l[1].endswith("connection::needs_connection"):
-                    ok = True
             key = "connect-site:%s" % g.path.split("pallas_network2::")[-1]
-            if ok:
+            if _needs_connection_true(f, g, bi):
                 res.ok(key, "R-CDEP", "InterfaceCommand::Connect built only under needs_connection(state) == true")
+                continue
+            # built in a helper: every call site of the helper is control-dependent on needs_connection
+            sites = [(h, bj) for h, bj, u in P.callers_of("^" + re.escape(g.path) + "$") if "::tests::" not in h.path]
+            if sites and all(_needs_connection_true(f, h, bj) for h, bj in sites):
+                res.ok(key, "R-CDEP", "Connect is built in a helper whose %d call site(s) are all under needs_connection(state) == true" % len(sites))
             else:
-                res.violation(key, "InterfaceCommand::Connect is constructed in %s without being control-dependent on needs_connection(state)" % g.path,
-                              where="%s:%s" % (g.file, g.line), rule="R-CDEP")
+                res.violation(key, "InterfaceCommand::Connect is constructed in %s without being control-dependent on needs_connection(state) "
+                              "(neither here nor at every call site)" % g.path, where="%s:%s" % (g.file, g.line), rule="R-CDEP")
     res.floor("Connect construction sites", n, 1)
 
 
@@ -321,12 +320,25 @@ def check_ban_is_immediate(res, P):
         res.violation("ban:execute-anchor", "InitiatorBehavior::execute not found", rule="anchor")
     else:
         f = ex[0]
-        direct = [bi for bi, t in f.calls() if (t.get("f") or "") in can_ban and not re.search(r"::housekeeping$|::handle_io$", t.get("f") or "")
-                  and "promotion::PromotionBehavior" in (t.get("f") or "")]
+        # a call, control-dependent on the command being BanPeer, to any function from which the insert into banned_peers is
+        # reachable (the Housekeeping arm's housekeeping() also reaches a ban, but not for this command)
+        CMD = "pallas_network2::behavior::initiator::InitiatorCommand"
+        ban_idx = next((i for i, nme in _enum_variants(P, CMD) if nme == "BanPeer"), None)
+        if ban_idx is None:
+            res.violation("ban:command-anchor", "InitiatorCommand::BanPeer not found", rule="anchor")
+        direct = []
+        for bi, t in f.calls():
+            if (t.get("f") or "") not in can_ban:
+                continue
+            for fact in facts_at(f, bi, kill=False):
+                if fact.op == "Eq" and fact.l[0] == "discr" and fact.r[0] == "const" and int(fact.r[1]) == ban_idx:
+                    ch = flow.origin_chain(fact.l[1])
+                    if ch is not None and ch[0][0] == "param" and not ch[1] and CMD in f.local_ty(ch[0][1]):
+                        direct.append(bi)
         if direct:
-            res.ok("ban:command-is-immediate", "R-MPT", "execute calls a PromotionBehavior function that records the ban in banned_peers")
+            res.ok("ban:command-is-immediate", "R-MPT", "on the BanPeer arm, execute calls a function that records the ban in banned_peers")
         else:
-            res.violation("ban:command-is-immediate", "InitiatorBehavior::execute no longer calls a PromotionBehavior function that inserts the peer into banned_peers: "
+            res.violation("ban:command-is-immediate", "InitiatorBehavior::execute no longer calls, for a BanPeer command, a function that inserts the peer into banned_peers: "
                           "a BanPeer command is only a flag that InitiatorState::reset() clears on disconnect, after which the peer is dialled again",
                           where="%s:%s" % (f.file, f.line), rule="R-MPT")
     # (b) visitors
